@@ -17,7 +17,7 @@ import (
 
 	"verif/harness/internal/gen"
 	"verif/harness/internal/rec"
-	"verif/harness/internal/vt"
+	"verif/harness/vt"
 )
 
 func TestMain(m *testing.M) { vt.Main(m) }
